@@ -286,6 +286,8 @@ def main(run: core.Run):
         'deviation-bounded for (2,2); non-trivial = model-parallel degree '
         '> 1')
     run.sample(cfgs[len(cfgs) // 2])
+    run.cap('the configuration sweep runs under fixed schedules; rank '
+            'interleavings are exhaustive only in the listed explorations')
     run.assumptions += [
         'DeepSpeed topology/PipelineModule and Megatron Column/'
         'RowParallelLinear are re-implemented stand-ins (gptenv.py); with '
